@@ -529,6 +529,69 @@ func checkCellsNotShared(c *Ctx, r *Rec, rule string) {
 				n++
 				construct := c.fdName(fd) + "/" + exprStr(stored)
 				why := fromOperand(stored)
+				// an unexported helper that stores the association it is handed: judged where it is called
+				if !bulk && !ast.IsExported(fd.Name.Name) {
+					if po := identObj(info, ast.Unparen(resolveInit(info, fd, stored))); po != nil {
+						pidx := -1
+						for i, p := range params {
+							if types.Object(p) == po && isCellType(p.Type()) {
+								pidx = i
+							}
+						}
+						if pidx >= 0 {
+							hfn := c.funcOf(fd)
+							sites, fresh, foreign := 0, 0, ""
+							for _, tn2 := range []*types.Named{cat, cls} {
+								if tn2 == nil {
+									continue
+								}
+								for _, cname := range sortedKeys(c.methodsOf(tn2)) {
+									cfd := c.methodsOf(tn2)[cname]
+									ast.Inspect(cfd.Body, func(y ast.Node) bool {
+										call, ok := y.(*ast.CallExpr)
+										if !ok || hfn == nil {
+											return true
+										}
+										if cf := calleeOf(info, call); cf == nil || cf.Origin() != hfn.Origin() || pidx >= len(call.Args) {
+											return true
+										}
+										sites++
+										arg := ast.Unparen(resolveInit(info, cfd, call.Args[pidx]))
+										if _, mname, _, ok := methodCall(arg); ok && mname == "Make" {
+											fresh++
+										} else if cl, ok := arg.(*ast.CallExpr); ok && !nodeHas(cl, func(z ast.Node) bool {
+											id, ok := z.(*ast.Ident)
+											if !ok {
+												return false
+											}
+											for _, cp := range paramObjs(info, cfd) {
+												if info.Uses[id] == types.Object(cp) && (isSequentialParam(cp.Type()) || isGoContainer(cp.Type()) || isCellType(cp.Type())) {
+													return true
+												}
+											}
+											return false
+										}) {
+											fresh++ // built by a call that is handed no operand
+										} else {
+											foreign = cname
+										}
+										return true
+									})
+								}
+							}
+							switch {
+							case sites > 0 && fresh == sites:
+								r.ok(rule, construct, c.pos(at.Pos()), fmt.Sprintf("the association handed to this helper is created at each of its %d call sites", sites))
+								return true
+							case foreign != "":
+								why = "it is handed in by " + foreign + ", which does not create it"
+							default:
+								r.skip(rule, construct, c.pos(at.Pos()), "the helper has no call site in the catalog type")
+								return true
+							}
+						}
+					}
+				}
 				switch {
 				case !bulk && isFreshAt(stored, at):
 					r.ok(rule, construct, c.pos(at.Pos()), "the association stored is created in this function")
